@@ -13,6 +13,6 @@ def run(ctx):
     ctx.audit("Slock.Properties.C02\nimport Slock.Properties.C01", THEOREMS)
     if ctx.tier == "thorough":
         ctx.leanchecker("Slock.Properties.C02")
-    engine_common.run_engine(ctx, ["C02:"], n_quick=600, n_thorough=40000)
+    engine_common.run_engine(ctx, ["C02:"], n_quick=3000, n_thorough=60000)
     ctx.cov["rule"] = ("seeded LOCK/UNLOCK sequences incl. unlocks of queued / expired / never-existing LockIds, unlock-first, cancel-wait, re-locks with all Rcount classes; "
                        "distinct_nontrivial = distinct sequences containing at least one grant")
